@@ -389,8 +389,9 @@ Section ExchangeFacts.
   Lemma conn_udpsize_advertised (client_size conn_size : N) (opt : option N) (s : N) :
     advertises client_size opt s -> conn_udpsize client_size conn_size opt = s.
   Proof.
-    intros [Hs [->|[-> ->]]]; unfold conn_udpsize;
-      destruct (N.leb_spec 512 s) as [_|Hlt]; try reflexivity; lia.
+    intros [Hs [Ho|[Ho Hc]]]; subst opt; unfold conn_udpsize.
+    - destruct (N.leb_spec 512 s) as [_|Hlt]; [reflexivity|lia].
+    - subst client_size. destruct (N.leb_spec 512 s) as [_|Hlt]; [reflexivity|lia].
   Qed.
 
   (* Whatever size the Conn was left with and whatever is still queued in front:
@@ -519,6 +520,25 @@ Proof. split; reflexivity. Qed.
 
 Example ex_foreign : foreign (fun _ => true) 512 4660 ex_m2.
 Proof. unfold foreign, headerSize. cbn. repeat split; [repeat constructor|discriminate]. Qed.
+
+(* a session on one Conn: the Conn was left with 4096 octets and one stale reply
+   queued; the first exchange advertises 1232 octets, the second has no OPT
+   record and finds the reply that stayed queued *)
+Example ex_session :
+  exchange_session (fun _ => true) 0 4096 [ex_m2]
+                   [(4660, Some 1232, [ex_m2; ex_m1; ex_m2]); (43981, None, [])]
+  = [Ok ex_m1; Ok ex_m2].
+Proof. vm_compute. reflexivity. Qed.
+
+Example ex_session_premises :
+  advertises 0 (Some 1232) 1232 /\ advertises 4096 None 4096 /\
+  Forall (foreign (fun _ => true) (N.to_nat 1232) 4660) [ex_m2; ex_m2] /\ lenN ex_m1 <= 1232.
+Proof.
+  unfold advertises, foreign, headerSize. repeat split; try (vm_compute; discriminate); try lia.
+  - left; reflexivity.
+  - right; split; reflexivity.
+  - repeat constructor; try (vm_compute; discriminate); vm_compute; lia.
+Qed.
 
 Example ex_oversize : write_frame (repeat 0 (N.to_nat 65536)) = Err "too-large".
 Proof. vm_compute. reflexivity. Qed.
